@@ -594,8 +594,13 @@ def build_unit(name: str, variant: Optional[str] = None, canary: bool = False) -
     for c in contracts.values():
       if c.spec.strip() and not any('external_body' in at for at in c.attrs):
         c.proofs.insert(0, ('body_start', '  proof { assert(false); } // vacuity canary'))
-  prelude = open(os.path.join(d, 'prelude.rs'), encoding='utf-8').read() if os.path.exists(os.path.join(d, 'prelude.rs')) else ''
+  prelude = ''
+  for pf in cfg.get('prelude_files', ['prelude.rs']):
+    pp = os.path.normpath(os.path.join(d, pf))
+    if os.path.exists(pp): prelude += open(pp, encoding='utf-8').read() + '\n'
   spec = open(os.path.join(d, 'spec.rs'), encoding='utf-8').read() if os.path.exists(os.path.join(d, 'spec.rs')) else ''
+  for sf in cfg.get('spec_files', []):
+    spec = open(os.path.normpath(os.path.join(d, sf)), encoding='utf-8').read() + '\n' + spec
   for sh in cfg.get('shared', []):
     spec = open(os.path.join(VX, 'shared', sh), encoding='utf-8').read() + '\n' + spec
   if variant and os.path.exists(os.path.join(d, 'spec.%s.rs' % variant)):
